@@ -15,6 +15,8 @@ package verifharness
 //   mkclient <chain> tss <addr> | mkclient <chain> oth       client exists on T (tss: created through the keeper; oth = T's TM client of S)
 //   mkcommit <src> <dst> <seq>                               T stores the commitment of the canonical packet (src,dst,seq)
 //   reg <addrOK> <addr> <nc> <chain>*nc <na> <oaddr>*na      -> ok G:<registry in store order> | rej
+//   regdry <drop|fail|gov> <addrOK> <addr> <nc> <chain>*nc <na> <oaddr>*na   registration on a DISCARDED context branch
+//                                                            -> dry ok|rej G:<registry in the store, unchanged>
 //   q <chain> <addr> <oaddr>                                 -> auth=<0|1> other=<f:hex|none> tele=<f:hex|none>
 //   upd <raw> <canon> <chain> <hdrOK> <newTss|none>          -> ok <store diff> | rej
 //   recv <raw> <canon> <src> <dst> <seq> <kind> <proofOK> <cb> -> ok <store diff> rl=<ack relayer field> cls=<ok|code|evm|nodst> | rej
@@ -38,6 +40,7 @@ import (
 
 	"github.com/cosmos/cosmos-sdk/simapp/helpers"
 	sdk "github.com/cosmos/cosmos-sdk/types"
+	govtypes "github.com/cosmos/cosmos-sdk/x/gov/types"
 	"github.com/ethereum/go-ethereum/common"
 	abci "github.com/tendermint/tendermint/abci/types"
 	"github.com/tharsis/ethermint/crypto/ethsecp256k1"
@@ -46,7 +49,6 @@ import (
 	packetcontract "github.com/teleport-network/teleport/syscontracts/xibc_packet"
 	xibctmtypes "github.com/teleport-network/teleport/x/xibc/clients/light-clients/tendermint/types"
 	tsstypes "github.com/teleport-network/teleport/x/xibc/clients/tss-client/types"
-	xibcclient "github.com/teleport-network/teleport/x/xibc/core/client"
 	clienttypes "github.com/teleport-network/teleport/x/xibc/core/client/types"
 	"github.com/teleport-network/teleport/x/xibc/core/host"
 	packettypes "github.com/teleport-network/teleport/x/xibc/core/packet/types"
@@ -86,12 +88,18 @@ type c06Reg struct {
 	chains, addrs []string
 }
 
+type c06Dry struct {
+	addr string
+	reg  c06Reg
+}
+
 type c06World struct {
 	t     *testing.T
 	coord *xibctesting.Coordinator
 	T, S  *xibctesting.TestChain
 	// mirrors used by the ORACLE only (what governance registered / configured last)
 	lastReg map[string]c06Reg
+	dryRegs []c06Dry          // registrations that ran on DISCARDED context branches (for the distribution only; never in lastReg)
 	tssCfg  map[string]string // chain -> TSS address as configured (mkclient) / rotated (accepted TSS update)
 	hist    []string
 	// proofs of the canonical pool
@@ -604,7 +612,7 @@ func (w *c06World) apply1(r *Rec, f []string) string {
 			return "rej"
 		}
 		var herr error
-		if pn, _ := safely(func() { herr = xibcclient.NewClientProposalHandler(ck)(T.GetContext(), p) }); pn || herr != nil {
+		if pn, _ := safely(func() { herr = T.App.GovKeeper.Router().GetRoute(p.ProposalRoute())(T.GetContext(), p) }); pn || herr != nil {
 			return "rej"
 		}
 		w.coord.CommitBlock(T)
@@ -620,19 +628,9 @@ func (w *c06World) apply1(r *Rec, f []string) string {
 		if mirror.multichainUnsorted() {
 			r.Count("reg.accepted.multichain-unsorted")
 		}
-		var parts []string
-		for _, ir := range ck.GetAllRelayers(T.GetContext()) {
-			cs := make([]string, len(ir.Chains))
-			for i, c := range ir.Chains {
-				cs[i] = hxs(c)
-			}
-			as := make([]string, len(ir.Addresses))
-			for i, c := range ir.Addresses {
-				as[i] = hxs(c)
-			}
-			parts = append(parts, hxs(ir.Address)+"="+strings.Join(cs, ",")+"/"+strings.Join(as, ","))
-		}
-		return "ok G:" + strings.Join(parts, "|")
+		return "ok G:" + w.regDump()
+	case "regdry":
+		return w.applyRegDry(r, f)
 	case "q":
 		var auth bool
 		var other, tele string
@@ -665,6 +663,9 @@ func (w *c06World) apply1(r *Rec, f []string) string {
 			return "none"
 		}
 		r.Count("q")
+		if !(reg && c06Contains(lr.chains, s(1))) && w.dryNamed(s(2), s(1)) {
+			r.Count("q.after-discarded-registration")
+		}
 		if c06HasCaseSibling(lr.chains, s(1)) {
 			r.Count("q.case-sibling-chain")
 		}
@@ -679,6 +680,116 @@ func (w *c06World) apply1(r *Rec, f []string) string {
 		return w.applyMsg(r, f)
 	}
 	return "bad-op"
+}
+
+// the registry as the STORE holds it (GetAllRelayers iterates the store), in store order
+func (w *c06World) regDump() string {
+	var parts []string
+	for _, ir := range w.T.App.XIBCKeeper.ClientKeeper.GetAllRelayers(w.T.GetContext()) {
+		cs := make([]string, len(ir.Chains))
+		for i, c := range ir.Chains {
+			cs[i] = hxs(c)
+		}
+		as := make([]string, len(ir.Addresses))
+		for i, c := range ir.Addresses {
+			as[i] = hxs(c)
+		}
+		parts = append(parts, hxs(ir.Address)+"="+strings.Join(cs, ",")+"/"+strings.Join(as, ","))
+	}
+	if len(parts) == 0 {
+		return "-"
+	}
+	return strings.Join(parts, "|")
+}
+
+// regdry <mode> <addrOK> <addr> <nc> <chain>*nc <na> <oaddr>*na : the registration runs on a context branch that is
+// thrown away — nothing may remain of it.
+//
+//	drop  the routed gov proposal handler on a CacheContext that is dropped (exactly the dry run of gov SubmitProposal)
+//	fail  the same handler on a CacheContext, followed by a second proposal that fails: the branch is not written
+//	gov   the real thing: MsgSubmitProposal through BaseApp.Deliver with an empty deposit (the proposal stays in the
+//	      deposit period, never passes; gov.Keeper.SubmitProposal dry-runs the handler on a discarded CacheContext)
+func (w *c06World) applyRegDry(r *Rec, f []string) string {
+	T := w.T
+	s := func(i int) string { return string(unhx(f[i])) }
+	mode, addr := f[1], s(3)
+	nc, _ := strconv.Atoi(f[4])
+	var chains, addrs []string
+	for i := 0; i < nc; i++ {
+		chains = append(chains, s(5+i))
+	}
+	na, _ := strconv.Atoi(f[5+nc])
+	for i := 0; i < na; i++ {
+		addrs = append(addrs, s(6+nc+i))
+	}
+	_, aerr := sdk.AccAddressFromBech32(addr)
+	if (aerr == nil) != (f[2] == "1") {
+		return "flag-mismatch"
+	}
+	p := clienttypes.NewRegisterRelayerProposal("register relayer", "c06 dry", addr, append([]string{}, chains...), append([]string{}, addrs...))
+	before := w.xibcDump()
+	handlerOK := false
+	switch mode {
+	case "drop", "fail":
+		if p.ValidateBasic() == nil { // gov refuses to route content that fails ValidateBasic (MsgSubmitProposal.ValidateBasic)
+			handler := T.App.GovKeeper.Router().GetRoute(p.ProposalRoute())
+			cctx, _ := T.GetContext().CacheContext()
+			var herr error
+			pn, _ := safely(func() { herr = handler(cctx, p) })
+			handlerOK = !pn && herr == nil
+			if mode == "fail" {
+				// a later step of the same branch fails (upgrade of a client that does not exist): the caller drops the branch
+				up := &clienttypes.UpgradeClientProposal{Title: "t", Description: "d", ChainName: "no-such-client"}
+				var err2 error
+				safely(func() { err2 = handler(cctx, up) })
+				if err2 == nil {
+					return "harness-error second step did not fail"
+				}
+			}
+		}
+	case "gov":
+		msg, err := govtypes.NewMsgSubmitProposal(p, sdk.NewCoins(), c06Accts[5].addr)
+		if err != nil {
+			return "bad-op"
+		}
+		handlerOK, _, _ = w.deliver(&c06Accts[5], msg)
+	default:
+		return "bad-op"
+	}
+	w.coord.CommitBlock(T)
+	r.Count("reg.discarded")
+	r.Count("reg.discarded." + mode)
+	if handlerOK {
+		r.Count("reg.discarded.handler-ok")
+		w.dryRegs = append(w.dryRegs, c06Dry{addr, c06Reg{append([]string{}, chains...), append([]string{}, addrs...)}})
+	}
+	if toks := c06Diff(before, w.xibcDump()); len(toks) != 0 {
+		w.find(r, "C06/discarded-registration-changed-the-store", "a registration run on a discarded context branch changed the xibc store", strings.Join(toks, " "), "no change")
+	}
+	if handlerOK {
+		return "dry ok G:" + w.regDump()
+	}
+	return "dry rej G:" + w.regDump()
+}
+
+// a discarded registration named the address for the chain (and no committed registration of it is checked here)
+func (w *c06World) dryNamed(addr, chain string) bool {
+	for _, d := range w.dryRegs {
+		if d.addr == addr && c06Contains(d.reg.chains, chain) {
+			return true
+		}
+	}
+	return false
+}
+
+// the LAST discarded registration of the address (a mutation that lets it stick would make it authoritative)
+func (w *c06World) lastDry(addr string) (c06Reg, bool) {
+	for i := len(w.dryRegs) - 1; i >= 0; i-- {
+		if w.dryRegs[i].addr == addr {
+			return w.dryRegs[i].reg, true
+		}
+	}
+	return c06Reg{}, false
 }
 
 func (w *c06World) applyMsg(r *Rec, f []string) string {
@@ -837,6 +948,23 @@ func (w *c06World) applyMsg(r *Rec, f []string) string {
 	tag := kind + "."
 	lr, registered := w.lastReg[raw]
 	regForChain := registered && c06Contains(lr.chains, chain)
+	if kind != "ack" && !regForChain && w.dryNamed(raw, chain) {
+		// only a DISCARDED registration names this signer for this chain: it confers nothing
+		r.Count("msg.after-discarded-registration.attempted")
+		r.Count(kind + ".after-discarded-registration.attempted")
+	}
+	if ld, ok := w.lastDry(raw); kind != "ack" && regForChain && ok && !c06Contains(ld.chains, chain) {
+		// committed for the chain, while a later discarded re-registration omits it: still authorised
+		r.Count("msg.after-discarded-reregistration.attempted")
+	}
+	if kind == "ack" && src == T.ChainID && len(w.payoutCandidates(dst, s(9))) == 0 {
+		for _, d := range w.dryRegs {
+			if a, ok := d.reg.addrFor(dst); ok && strings.EqualFold(a, s(9)) {
+				r.Count("ack.after-discarded-registration.payout.attempted")
+				break
+			}
+		}
+	}
 	if kind != "ack" && c06HasCaseSibling(lr.chains, chain) {
 		// the signer is registered for a name that differs from this chain's only in letter case: a different chain
 		r.Count("msg.case-sibling-chain.attempted")
